@@ -10,7 +10,8 @@ from vpc.core import cN, cstr, cbytes, clist, copt, cbool
 NF = 999999
 IMPORTS = "Require Import V.model.RecordStore."
 THEOREMS = ["get_only_put_values", "settled_reads_latest", "late_notification_relists_refuted",
-            "served_is_held_or_in_flight", "names_injective", "names_roundtrip", "store_constants"]
+            "served_is_held_or_in_flight", "put_verified_has_no_size_gate", "disk_read_has_no_size_gate",
+            "names_injective", "names_roundtrip", "store_constants"]
 RULE = ("a case is a whole history over 2-12 keys (32-byte random keys; adversarial: keys sharing their "
         "first 8 bytes (= same nonce), sharing long prefixes/suffixes, 1-byte keys, 128-byte keys whose file "
         "name exceeds NAME_MAX) and 3-10 values (all record kinds, bad headers, 3 B - 64 KiB): validated puts "
@@ -78,7 +79,13 @@ def step_terms(o, st):
     if name == "crash":
         return one("ICrash %s" % lp(o.get("tears", [])), "JNone")
     if name == "settle":
-        ts = ["(%s, JNone, None)" % ("IRun" if a == 1 else "IDeliver 0") for a in st["extra"]]
+        ts, log, i = [], st["extra"], 0
+        while i < len(log):                      # run-length encoded
+            j = i
+            while j < len(log) and log[j] == log[i]:
+                j += 1
+            ts.append("(%s %d, JNone, None)" % ("IRuns" if log[i] == 1 else "IDelivers0", j - i))
+            i = j
         return ts + one("IDeliver %d" % NF, "JNone")
     raise ValueError(name)
 
@@ -98,10 +105,15 @@ def val_term(hexv):
     return cbytes(b)
 
 
+def nx(dec):
+    """a 256-bit number as hex text (string literals are much cheaper for coqc than long numerals)"""
+    return '(nx "%064x")' % int(dec)
+
+
 def tables_term(c, o):
-    keys = clist(cstr(bytes.fromhex(k)) for k in c["keys"])
+    keys = clist('(kx "%s")' % k for k in c["keys"])
     vals = clist(val_term(v) for v in c["vals"])
-    return "(mkTables %s %s %s %s)" % (keys, clist(o["dists"]), vals, clist(o["hashes"]))
+    return "(mkTables %s %s %s %s)" % (keys, clist(nx(d) for d in o["dists"]), vals, clist(nx(h) for h in o["hashes"]))
 
 
 def starter_of(c):
@@ -111,8 +123,21 @@ def starter_of(c):
 
 def case_args(c, o):
     steps = []
-    for op, st in zip(c["ops"], o["steps"]):
+    ops, sts, i = c["ops"], o["steps"], 0
+    while i < len(ops):
+        op, st = ops[i], sts[i]
+        # a stretch of undumped accepted puts of consecutive keys with one value: one IPuts
+        if op["op"] == "put" and st["dump"] is None and st["out"].get("put") is True:
+            j = i
+            while (j < len(ops) and ops[j]["op"] == "put" and sts[j]["dump"] is None and sts[j]["out"].get("put") is True
+                   and ops[j]["k"] == op["k"] + (j - i) and ops[j]["v"] == op["v"] and ops[j]["t"] == op["t"]):
+                j += 1
+            if j - i >= 3:
+                steps.append("(IPuts %d %d %d %d, JNone, None)" % (op["k"], j - i, op["v"], op["t"]))
+                i = j
+                continue
         steps += step_terms(op, st)
+        i += 1
     return steps
 
 
@@ -124,6 +149,8 @@ def model_term(c, o):
         # schedule the harness cannot name task by task; these histories are judged by the oracle alone
         # (the model's channel is unbounded and never drops: its theorems cover every such schedule)
         return None
+    if c.get("kind") == "stress":
+        return None      # oracle-only: real parallelism has no schedule the model could be run on
     if c.get("kind") == "header":
         return "agree_header %s %s" % (clist(str(b) for b in c["bytes"]), copt(o["kind"], str))
     return "agree_case %s %s %d %d %s %s %s %s %s" % (
@@ -133,6 +160,8 @@ def model_term(c, o):
 
 
 def show(c, o):
+    if c.get("kind") == "stress":
+        return "true"
     if c.get("kind") == "header":
         return "header_kind %s" % clist(str(b) for b in c["bytes"])
     return "show_case %s %s %d %d %s %s" % (
@@ -400,6 +429,28 @@ def oracle(c, o):
         return [("panic", "the store panicked: %s" % o["panic"])]
     if c.get("kind") == "header":
         return []
+    if c.get("kind") == "stress":
+        v = []
+        if o["refused"] or o["accepted"] != c["n"]:
+            v.append(("stress-put-refused", "parallel stress: %d of %d validated puts accepted below capacity" % (o["accepted"], c["n"])))
+        if o["failed"]:
+            v.append(("stress-write-reported-failed", "parallel stress (%d overlapping writes of %d-%d bytes to distinct keys): the writes of "
+                      "keys %s were reported failed (RemoveFailedLocalRecord) although nothing was wrong with them"
+                      % (c["n"], c["size_min"], c["size_max"], o["failed"][:8])))
+        wrong = [b for b in o["bad"] if b["got"] == "other"]
+        gone = [b for b in o["bad"] if b["got"] == "nothing"]
+        if wrong:
+            v.append(("get-foreign-value", "parallel stress: get(key %d) returned %s" % (
+                wrong[0]["k"], "the record of key %s" % wrong[0]["value_of_key"] if wrong[0]["value_of_key"] is not None
+                else "%d bytes that are no record handed in" % wrong[0]["len"])))
+        if gone:
+            v.append(("settled-put-unreadable", "parallel stress: settled, %d accepted writes unreadable (first: key %d, listed: %s)"
+                      % (len(gone), gone[0]["k"], gone[0].get("listed"))))
+        if o["listed"] != o["accepted"] - len(o["failed"]):
+            v.append(("settled-put-unlisted", "parallel stress: %d keys listed, %d writes accepted" % (o["listed"], o["accepted"])))
+        if o["leftover_files"]:
+            v.append(("stray-file-in-storage-dir", "parallel stress: files %s are left in the storage dir" % o["leftover_files"][:3]))
+        return v
     v = []
     t = Trace(c, o)
     crashed = False
@@ -453,6 +504,8 @@ def dedupe(v):
 
 
 def nontrivial(c, o):
+    if c.get("kind") == "stress" and o is not None:
+        return ("stress", c["n"], c["workers"], c["size_max"])
     if o is None or "steps" not in o:
         return None
     kinds = frozenset(op["op"] for op in c["ops"])
@@ -492,6 +545,25 @@ def gen(ctx):
     for i in range(20 if quick else 300):
         cases.append(gen_history(rng, rng.choice([10, 20, 30]), caps=(1, 2, 2, 3),
                                  weights=dict(put=40, remove=20, step=25, deliver=8, settle=2), tag="relist-directed"))
+    # validated puts around and above the size limit of the UNVERIFIED put(): put_verified has no size gate and
+    # neither has the disk path of get, so every such record must be readable after it left the 1-2 entry cache
+    for i in range(24 if quick else 400):
+        mvb = rng.choice([64, 100, 256])
+        nk = rng.randrange(3, 7)
+        keys = gen_keys(rng, nk, False)
+        lens = [mvb - 17, mvb - 16, mvb - 15, mvb - 1, mvb, mvb + 1, 2 * mvb, 5 * mvb + 3, 10]
+        rng.shuffle(lens)
+        vals = [bytes([0x91, rng.choice(KINDS_STORED)]) + bytes(rng.getrandbits(8) for _ in range(n - 2)) for n in lens[:6]]
+        ops = []
+        for j in range(rng.randrange(3, 9)):
+            v = rng.randrange(len(vals))
+            ops.append({"op": "put", "k": rng.randrange(nk), "v": v, "t": type_for(rng, vals[v], False)})
+            ops += rng.choice([[{"op": "settle"}], [{"op": "step"}] * rng.randrange(0, 4), []])
+        ops.append({"op": "settle"})
+        ops += [{"op": "get", "k": k} for k in range(nk)]
+        cc = mk_case(rng, keys, vals, ops, 16384, rng.choice([1, 1, 2]), "size-limit")
+        cc["cfg"]["max_value_bytes"] = mvb
+        cases.append(cc)
     # a SMALL command channel (capacity 1-3) that the driver drains late: more write completions than free
     # slots; nothing may be lost (the senders wait): once settled every accepted write is listed and readable,
     # also after it has left the 1-2 entry read cache
@@ -515,6 +587,12 @@ def gen(ctx):
         cc = mk_case(rng, keys, vals, ops, 16384, rng.choice([1, 2, 2, 25]), "small-channel")
         cc["cfg"]["chan_cap"] = rng.choice([1, 1, 2, 3])
         cases.append(cc)
+    # PARALLEL STRESS (oracle only): multi-thread runtime, 100+ validated puts of 256-512 KiB to distinct keys back
+    # to back so that the write tasks of different keys truly overlap, notifications handled concurrently
+    for i in range(3 if quick else 40):
+        cases.append({"kind": "stress", "n": rng.choice([100, 120, 160]) if quick else rng.choice([120, 200, 400]),
+                      "size_min": 262144, "size_max": 524288, "workers": rng.choice([6, 8]), "seed": rng.getrandbits(48),
+                      "chan_cap": rng.choice([10000, 10000, 64])})
     cases += header_cases(rng, 400 if quick else 3000)
     if not quick:
         cases += exhaustive_two_key(ctx)
